@@ -170,7 +170,7 @@ func checkC03(c *Ctx) {
 			for _, field := range req {
 				idx := -1
 				for i := 0; i < st.NumFields(); i++ {
-					if st.Field(i).Name() == field {
+					if fieldName(st.Field(i)) == field {
 						idx = i
 					}
 				}
@@ -222,7 +222,7 @@ func checkC03(c *Ctx) {
 				return true
 			}
 			sel, ok := ast.Unparen(sw.Tag).(*ast.SelectorExpr)
-			if !ok || sel.Sel.Name != "Type" || identObj(info, sel.X) != s.tkOb {
+			if !ok || astFieldName(info, sel.Sel) != "Type" || identObj(info, sel.X) != s.tkOb {
 				return true
 			}
 			nSw++
@@ -270,7 +270,7 @@ func checkC03(c *Ctx) {
 			ast.Inspect(fd.Body, func(n ast.Node) bool {
 				if be, ok := n.(*ast.BinaryExpr); ok && (be.Op == token.EQL || be.Op == token.NEQ) {
 					if v, ok := constInt(info, be.Y); ok {
-						if sel, ok := ast.Unparen(be.X).(*ast.SelectorExpr); ok && sel.Sel.Name == "Type" {
+						if sel, ok := ast.Unparen(be.X).(*ast.SelectorExpr); ok && astFieldName(info, sel.Sel) == "Type" {
 							used[v] = true
 						}
 					}
